@@ -28,6 +28,7 @@ type Solver struct {
 
 	// statistics
 	nSat, nUnsat, nUnknown, nErr int
+	nSyntactic                   int
 	wall                         time.Duration
 	lastErr                      string
 	slowest                      time.Duration
